@@ -890,6 +890,7 @@ void Channel4::MakeTable()
 	{
 		kftable[i] = int(0x10000 * pow(2., i / 768.) );
 	}
+	tablehasmade = true;
 }
 
 // リセット
